@@ -8,7 +8,7 @@
 //!   sort <expected> <id:dist>…                        -> "ok ids…" | "err notenough"   (sort_peers_by_address)
 //!   inrange <range> <id:dist>…                        -> "ok ids…"                      (get_peers_in_range)
 //!   closest <num|-> <range|-> <id:dist>…              -> "ok ids…"                      (Node::calculate_get_closest_peers)
-//!   proofresp <difficulty> <id:dist>…                  -> "ok ids…"   (Node::handle_query(GetChunkExistenceProof) = respond_x_closest_record_proof over a node
+//!   proofresp <difficulty> <keyid|-> <id:dist>…        -> "ok ids…" | "one found" | "one missing"   (difficulty 1: the key itself only; keyid = the key's chunk id; Node::handle_query(GetChunkExistenceProof) = respond_x_closest_record_proof over a node
 //!                                                         holding exactly the listed CHUNK records; ids index the world's chunk addresses; target = the key)
 //!   derive-range <nonfull> <full> <id:dist>…           -> "ok <range>" | "none"   (the set_farthest_record_interval arm of a real, RUNNING SwarmDriver whose
 //!                                                         routing table holds exactly the listed peers; the range is read back through GetLocalQuotingMetrics;
@@ -214,11 +214,12 @@ fn exec(w: &World, line: &str, target: &NetworkAddress) -> String {
             rt.shutdown_background();
             res
         }
-        ["proofresp", d, rest @ ..] => {
+        ["proofresp", d, _k, rest @ ..] => {
             let held: Vec<NetworkAddress> = rest.iter().map(|t| w.chunks[t.split(':').next().expect("id").parse::<usize>().expect("id")].clone()).collect();
             let difficulty: usize = d.parse().expect("difficulty");
             let rt = tokio::runtime::Builder::new_current_thread().enable_all().build().expect("rt");
             let key = target.clone();
+            let key2 = target.clone();
             rt.block_on(async move {
                 let (ntx, _nrx) = tokio::sync::mpsc::channel(16);
                 let (ltx, mut lrx) = tokio::sync::mpsc::channel(64);
@@ -231,8 +232,10 @@ fn exec(w: &World, line: &str, target: &NetworkAddress) -> String {
                                 let _ = sender.send(held2.iter().map(|a| (a.clone(), ant_protocol::storage::RecordType::Chunk)).collect());
                             }
                             ant_networking::verif::LocalSwarmCmd::GetLocalRecord { key, sender } => {
+                                // only what is held is there
                                 let v = key.to_vec();
-                                let _ = sender.send(Some(libp2p::kad::Record { key, value: v, publisher: None, expires: None }));
+                                let is_held = held2.iter().any(|a| a.to_record_key() == key);
+                                let _ = sender.send(is_held.then(|| libp2p::kad::Record { key, value: v, publisher: None, expires: None }));
                             }
                             _ => {}
                         }
@@ -242,6 +245,14 @@ fn exec(w: &World, line: &str, target: &NetworkAddress) -> String {
                 let resp = VerifNode::handle_query(&net, q, ant_evm::RewardsAddress::default()).await;
                 answer.abort();
                 match resp {
+                    ant_protocol::messages::Response::Query(ant_protocol::messages::QueryResponse::GetChunkExistenceProof(v)) if difficulty == 1 => {
+                        // one entry, for the key itself
+                        match v.as_slice() {
+                            [(a, Ok(_))] if *a == key2 => "one found".into(),
+                            [(a, Err(_))] if *a == key2 => "one missing".into(),
+                            other => format!("unexpected {} entries", other.len()),
+                        }
+                    }
                     ant_protocol::messages::Response::Query(ant_protocol::messages::QueryResponse::GetChunkExistenceProof(v)) => {
                         let ids: Vec<String> = v.iter().map(|(a, _)| w.chunks.iter().position(|c| c == a).expect("held chunk").to_string()).collect();
                         if ids.is_empty() { "ok".into() } else { format!("ok {}", ids.join(" ")) }
@@ -417,7 +428,15 @@ fn oracle(line: &str, r: &str, out: &mut Out, strict: bool) {
                 out.oracle_fail("replicate-candidates", line, &format!("got {got:?}, the peers within range of the target (or the 5 nearest) are {expect:?}"));
             }
         }
-        ["proofresp", dfc, rest @ ..] => {
+        ["proofresp", dfc, k, rest @ ..] if *dfc == "1" => {
+            // difficulty 1: the key itself, found exactly when it is one of the held chunks
+            let held = rest.iter().any(|t| t.split(':').next() == Some(*k));
+            let expect = if held { "one found" } else { "one missing" };
+            if r != expect {
+                out.oracle_fail("challenge-response-single", line, &format!("got `{r}`, expected `{expect}`"));
+            }
+        }
+        ["proofresp", dfc, _k, rest @ ..] => {
             // the min(difficulty, 5) held chunks nearest the key, ascending
             let mut d = dists(rest);
             d.sort_by(|a, b| a.0.cmp(&b.0));
@@ -529,7 +548,10 @@ fn main() {
     if let Some(ls) = replay_lines {
         for l in ls {
             if let Some(t) = l.strip_prefix("target ") {
-                target = w.addrs[t.parse::<usize>().expect("t")].1.clone();
+                target = match t.strip_prefix('c') {
+                    Some(c) => w.chunks[c.parse::<usize>().expect("c")].clone(),
+                    None => w.addrs[t.parse::<usize>().expect("t")].1.clone(),
+                };
                 out.line(l.clone(), "bad-op");
                 continue;
             }
@@ -614,18 +636,31 @@ fn main() {
                 if rng.chance(1, 14) {
                     // storage challenge, responder side: a node holding some of the world's chunks is asked for the
                     // `difficulty` nearest the key
+                    // the key: an address of the world, or (half of the cases, and whenever difficulty is 1) one of the chunks
+                    let dfc = *rng.pick(&[0usize, 1, 1, 2, 3, 4, 5, 6, 9]);
+                    let key_chunk: Option<usize> = if dfc == 1 || rng.chance(1, 2) { Some(rng.below(w.chunks.len() as u64) as usize) } else { None };
+                    if let Some(kc) = key_chunk {
+                        target = w.chunks[kc].clone();
+                        out.line(format!("target c{kc}"), "bad-op");
+                    }
                     let nheld = *rng.pick(&[0usize, 1, 3, 5, 6, 12, 40, 60]);
                     let mut cidx: Vec<usize> = (0..w.chunks.len()).collect();
                     rng.shuffle(&mut cidx);
                     cidx.truncate(nheld);
+                    // the key is held in about half of the difficulty-1 cases
+                    if let Some(kc) = key_chunk {
+                        if dfc == 1 && rng.chance(1, 2) && !cidx.contains(&kc) {
+                            cidx.push(kc);
+                        }
+                    }
                     let ht = digest(&target.as_bytes());
                     let line: Vec<String> = cidx.iter().map(|i| format!("{}:{}", i, xor(&ht, &digest(&w.chunks[*i].as_bytes())))).collect();
                     let mut u = cidx.clone();
                     u.sort();
                     let b: Vec<String> = u.iter().map(|i| format!("{i}={}", hex(&w.chunks[*i].as_bytes()))).collect();
                     run(&w, &format!("bind {} {}", hex(&target.as_bytes()), b.join(" ")).trim_end().to_string(), &target, &mut out);
-                    let dfc = *rng.pick(&[0usize, 2, 3, 4, 5, 6, 9]);
-                    run(&w, &format!("proofresp {dfc} {}", line.join(" ")).trim_end().to_string(), &target, &mut out);
+                    let k = key_chunk.map(|k| k.to_string()).unwrap_or_else(|| "-".into());
+                    run(&w, &format!("proofresp {dfc} {k} {}", line.join(" ")).trim_end().to_string(), &target, &mut out);
                     continue;
                 }
                 if rng.chance(1, 40) {
